@@ -826,7 +826,7 @@ func snifferPhase(c *kit.Case, e *env, duty core.Duty, bases []base, rng *rand.R
 		nd.net.Inject(e.ids[w.GetMsg().GetPeerIdx()], e.ids[nd.idx], protoQBFT, w)
 	}
 	// the instance consumes its receive buffer asynchronously: wait until the valid ones were sniffed (pacing only)
-	time.Sleep(50 * time.Millisecond)
+	time.Sleep(400 * time.Millisecond)
 	pcancel()
 	select {
 	case <-done:
